@@ -70,7 +70,12 @@ Record conccase := mkConc {
   k_held : list (list Z);       (* per goroutine: indices it holds at the end *)
   k_arranged : Z; k_freed : Z;  (* successful ArrangeBlock / FreeBlock calls in total *)
   k_avail : Z;                  (* Available() at the end *)
-  k_ravail : Z; k_rset : list (Z * Z) (* reopened on the final bytes (ranges) *)
+  k_ravail : Z; k_rset : list (Z * Z); (* reopened on the final bytes (ranges) *)
+  k_viol : list N               (* what the goroutines saw go wrong while running (must be empty):
+                                   1 index handed out while still held, 2 content of a held block changed,
+                                   3 FreeBlock of a held block failed, 4 index out of range, 5 unexpected error,
+                                   6 ErrExhausted although goroutines*hold < Count(), 7 panic,
+                                   8 Block() of an arranged index failed, 9 recovering the set / reopening failed *)
 }.
 
 (* short alias used by the generated case files *)
@@ -178,6 +183,7 @@ Definition check_conc (c : conccase) : bool :=
       let all := concat (k_held c) in
       let set := fold_left (fun acc i => as_add i acc) all [] in
       (blocks_count b =? k_count c)
+      && match k_viol c with [] => true | _ => false end
       && (Nat.eqb (length set) (length all))                         (* nobody holds an index twice / no two holders *)
       && forallb (fun i => (0 <=? i) && (i <? k_count c)) all
       && (k_arranged c - k_freed c =? Z.of_nat (length all))
